@@ -290,30 +290,30 @@ func (a *adapter) Reset(init map[string]tla.Value) (engine.Fields, error) {
 func (a *adapter) observe(fl engine.Fields) {
 	fl["root"] = a.t.observer().hash().Hex()
 	o := a.t.observer()
-	reads := map[string]string{}
+	reads := []string{} // in the order of "keys" of the reset event
 	for _, id := range a.keys {
 		v, err := o.get(a.key(id))
 		if err != nil {
-			reads[id] = "!" + err.Error()
+			reads = append(reads, "!"+err.Error())
 		} else {
-			reads[id] = valID(v)
+			reads = append(reads, valID(v))
 		}
 	}
 	fl["reads"] = reads
-	// node paths, projected to (length, first 8 nibbles)
-	shape := [][]interface{}{}
+	// node paths, each projected to one number: length and the first 5 nibbles
+	// (code = len*2000000 + sum nibble_i * 17^(5-i); TraceTrieKV.Code is the same projection of the spec's paths)
+	shape := []int{}
 	it := a.t.observer().iter()
 	for it.Next(true) {
 		p := it.Path()
-		n := len(p)
-		if n > 8 {
-			n = 8
+		code := 0
+		for i := 0; i < 5; i++ {
+			code *= 17
+			if i < len(p) {
+				code += int(p[i]) + 1 // +1: distinguishes "no nibble" from nibble 0
+			}
 		}
-		head := make([]int, n)
-		for i := 0; i < n; i++ {
-			head[i] = int(p[i])
-		}
-		shape = append(shape, []interface{}{len(p), head})
+		shape = append(shape, len(p)*2000000+code)
 	}
 	if it.Error() != nil {
 		fl["itererr"] = it.Error().Error()
@@ -371,7 +371,19 @@ func (a *adapter) proveAll(root common.Hash) []interface{} {
 				tam = append(tam, verify(root, key, mkSet(r.blobs), "nodes-of-other-root"))
 			}
 		}
-		out = append(out, map[string]interface{}{"k": id, "nodes": len(blobs), "refused": gen.Refused, "val": gen.Val, "t": tam})
+		// distinct outcomes of the manipulated node sets (first example of each, with its multiplicity)
+		var distinct []map[string]interface{}
+		seen := map[string]int{}
+		for _, t := range tam {
+			k := fmt.Sprintf("%v/%s", t.Refused, t.Val)
+			if i, ok := seen[k]; ok {
+				distinct[i]["n"] = distinct[i]["n"].(int) + 1
+				continue
+			}
+			seen[k] = len(distinct)
+			distinct = append(distinct, map[string]interface{}{"how": t.How, "refused": t.Refused, "val": t.Val, "n": 1})
+		}
+		out = append(out, map[string]interface{}{"k": id, "nodes": len(blobs), "refused": gen.Refused, "val": gen.Val, "tried": len(tam), "t": distinct})
 	}
 	return out
 }
